@@ -85,7 +85,7 @@ extern "C" void h_stream() {
             A(blocked == expectBlock);
             if (!blocked) {
                 long want = n;
-                if (n + m.tellg > m.fs) { want = m.fs - m.tellg; m.good = false; m.eof = true; } else { m.good = true; m.eof = false; }
+                if (n + m.tellg > m.fs) { want = m.fs - m.tellg; m.good = false; m.eof = true; }   /* iostream-like: a failure persists */
                 if (want < 0) want = 0;
                 long avail = m.tellp - m.tellg; if (avail < 0) avail = 0;
                 long got = want < avail ? want : avail;          // bytes that exist
